@@ -144,6 +144,29 @@ func init() {
 					L.Kust["commonLabels"] = toObj(L.Labels)
 				}
 			}
+			// a `labels` entry with its OWN field specs (`fields`: here the Service selector, next to includeTemplates — a pair
+			// that stays consistent by itself), placed before the plain entries of its layer: its fields are its own, they
+			// apply neither to the entries after it nor to the entries of the layers above
+			fieldsLabels := map[int]map[string]string{}
+			for li, L := range t.Layers {
+				if r.Intn(3) != 0 {
+					continue
+				}
+				kv := map[string]string{"viafields": pickS(r, []string{"q", "w"})}
+				fieldsLabels[li] = kv
+				e := Obj{"pairs": toObj(kv), "includeTemplates": true,
+					"fields": []interface{}{Obj{"path": "spec/selector", "kind": "Service", "version": "v1", "create": true}}}
+				old, _ := L.Kust["labels"].([]interface{})
+				L.Kust["labels"] = append([]interface{}{e}, old...)
+				if len(old) == 0 && r.Intn(2) == 0 {
+					// … followed by a plain, metadata-only entry in the same file
+					if L.MetaLabels == nil {
+						L.MetaLabels = map[string]string{"owner": pickS(r, []string{"a", "b"})}
+						L.MetaLabelsTmpl = false
+						L.Kust["labels"] = append(L.Kust["labels"].([]interface{}), Obj{"pairs": toObj(L.MetaLabels)})
+					}
+				}
+			}
 			fs := filesys.MakeFsInMemory()
 			t.Write(fs, "/w")
 			out, err, pnc := safeBuild(func() (string, error) { return runBuild(fs, t.TopDir("/w"), nil) })
@@ -166,6 +189,10 @@ func init() {
 				wantTmpl := map[string]string{} // final template entries
 				for _, li := range t.Chain(g.Layer) {
 					L := t.Layers[li]
+					for k, v := range fieldsLabels[li] {
+						wantMeta[k] = v
+						wantTmpl[k] = v
+					}
 					for k, v := range L.MetaLabels {
 						wantMeta[k] = v
 						if L.MetaLabelsTmpl {
